@@ -31,12 +31,64 @@ def _work(args):
         part = Part()
         try:
             uni = H.universe("bv3")
+            from claripy.annotation import SimplificationAvoidanceAnnotation
+
+            def judge(s, added, M, core, case):
+                try:
+                    core = list(core)
+                except Exception:
+                    part.fail(f"{cls}:core-not-iterable", case, repr(core)[:100])
+                    return
+                if M:
+                    if len(core) != 0:
+                        part.fail(f"{cls}:core-on-sat", case, [repr(c)[:60] for c in core])
+                    return
+                bad_type = [c for c in core if not isinstance(c, claripy.ast.Bool)]
+                if bad_type:
+                    part.fail(f"{cls}:element-not-bool-ast", case, [repr(c)[:80] for c in core])
+                    return
+                allowed = {c.hash() for c in added}
+                pool = list(added)
+                if hasattr(s, "constraints"):
+                    pool += list(s.constraints)
+                if hasattr(s, "_solver_list"):
+                    for ch in s._solver_list:
+                        pool += list(ch.constraints)
+                for c in pool:
+                    allowed.add(c.hash())
+                    if c.op == "And":
+                        allowed |= {a.hash() for a in c.args}
+                foreign = [c for c in core if c.hash() not in allowed]
+                if foreign:
+                    part.fail(f"{cls}:element-not-a-constraint", case, [repr(c)[:80] for c in foreign])
+                    return
+                if len(core) == 0:
+                    part.fail(f"{cls}:empty-core-on-unsat", case, None)
+                    return
+                try:
+                    tabs = [uni.den(c) for c in core]
+                except Exception:
+                    part.count("core_not_interpretable")
+                    return
+                if any(all(t[i] for t in tabs) for i in range(uni.N)):
+                    part.fail(f"{cls}:core-satisfiable", case, [repr(c)[:60] for c in core])
+                else:
+                    part.sample({"case": case, "core": [repr(c)[:50] for c in core]}, limit=1)
+                    part.count("unsat_cores_checked")
+
             for seq in seqs:
                 part.count("transitions")
-                s = H.make_solver(cls, cfg)
                 case = f"{cls}|{variant}|" + ",".join(seq)
                 added = []
                 try:
+                    if variant == "twin":
+                        # another tracked solver of this thread has registered ANNOTATED twins of the same constraints
+                        s0 = H.make_solver(cls, cfg)
+                        for k in seq:
+                            s0.add(uni.K[k].annotate(SimplificationAvoidanceAnnotation()))
+                        s0.satisfiable()
+                        s0.unsat_core() if not uni.models(list(seq)) else None
+                    s = H.make_solver(cls, cfg)
                     for i, k in enumerate(seq):
                         s.add(uni.K[k])
                         added.append(uni.K[k])
@@ -54,47 +106,23 @@ def _work(args):
                     part.fail(f"{cls}:raise:{type(e).__name__}", case, str(e)[:200])
                     continue
                 M = uni.models(list(seq))
-                try:
-                    core = list(core)
-                except Exception:
-                    part.fail(f"{cls}:core-not-iterable", case, repr(core)[:100])
-                    continue
-                if M:
-                    if len(core) != 0:
-                        part.fail(f"{cls}:core-on-sat", case, [repr(c)[:60] for c in core])
-                    continue
-                bad_type = [c for c in core if not isinstance(c, claripy.ast.Bool)]
-                if bad_type:
-                    part.fail(f"{cls}:element-not-bool-ast", case, [repr(c)[:80] for c in core])
-                    continue
-                allowed = {c.hash() for c in added}
-                pool = list(added)
-                if hasattr(s, "constraints"):
-                    pool += list(s.constraints)
-                if hasattr(s, "_solver_list"):
-                    for ch in s._solver_list:
-                        pool += list(ch.constraints)
-                for c in pool:
-                    allowed.add(c.hash())
-                    if c.op == "And":
-                        allowed |= {a.hash() for a in c.args}
-                foreign = [c for c in core if c.hash() not in allowed]
-                if foreign:
-                    part.fail(f"{cls}:element-not-a-constraint", case, [repr(c)[:80] for c in foreign])
-                    continue
-                if len(core) == 0:
-                    part.fail(f"{cls}:empty-core-on-unsat", case, None)
-                    continue
-                try:
-                    tabs = [uni.den(c) for c in core]
-                except Exception as e:
-                    part.count("core_not_interpretable")
-                    continue
-                if any(all(t[i] for t in tabs) for i in range(uni.N)):
-                    part.fail(f"{cls}:core-satisfiable", case, [repr(c)[:60] for c in core])
-                else:
-                    part.sample({"case": case, "core": [repr(c)[:50] for c in core]}, limit=1)
-                    part.count("unsat_cores_checked")
+                judge(s, added, M, core, case)
+                if variant == "derived":
+                    # solvers derived from this one start with no core of their own
+                    try:
+                        t = s.blank_copy()
+                        t.add(uni.K[seq[0]])
+                        judge(t, [uni.K[seq[0]]], uni.models([seq[0]]), t.unsat_core(), case + "|blank_copy+add")
+                        for pi, p_ in enumerate(s.split()):
+                            cs = list(p_.constraints)
+                            try:
+                                tabs = [uni.den(c) for c in cs]
+                                Mp = tuple(i for i in range(uni.N) if all(t_[i] for t_ in tabs))
+                            except Exception:
+                                continue
+                            judge(p_, cs, Mp, p_.unsat_core(), case + f"|split[{pi}]")
+                    except Exception as e:
+                        part.fail(f"{cls}:derived:raise:{type(e).__name__}", case, str(e)[:200])
         except BaseException:
             import traceback
 
@@ -125,7 +153,7 @@ def run(tier: str) -> int:
     seqs += list(itertools.permutations(SUB4, 4))
     if tier == "quick":
         seqs = [q for q in seqs if len(q) <= 2] + [q for q in seqs if len(q) == 3][::3] + [q for q in seqs if len(q) == 4][::6]
-    variants = ["plain", "sat2", "eval1", "each"]
+    variants = ["plain", "sat2", "eval1", "each", "derived", "twin"]
     items = []
     for cls in ("Solver", "SolverComposite"):
         for v in variants:
